@@ -48,4 +48,38 @@ mod verif_kani {
         let spec = if trusted { ValidationState::Trusted } else if valid { ValidationState::Valid } else { ValidationState::Invalid };
         assert!(st == spec);
     }
+
+    fn spec_state(has_active: bool, s: &[u8], f_all: &[u8]) -> ValidationState {
+        let has = |c: u8| s.iter().any(|x| *x == c);
+        let all_tol = f_all.iter().all(|x| tolerated(*x));
+        let valid = has_active && has(0) && has(1) && all_tol;
+        let trusted = valid && has(2) && f_all.is_empty();
+        if trusted { ValidationState::Trusted } else if valid { ValidationState::Valid } else { ValidationState::Invalid }
+    }
+
+    #[kani::proof]
+    #[kani::unwind(4)]
+    fn state_matches_spec_with_delta() {
+        // active: 3 success slots (symbolic codes), 1 failure slot optional; one ingredient delta with 0/1 failure
+        let mut sc = StatusCodes::default();
+        let mut sidx = [0u8; 3];
+        let mut k = 0;
+        while k < 3 { let c: u8 = kani::any(); kani::assume((c as usize) < CODES.len()); sidx[k] = c; sc.success.push(ValidationStatus::new(CODES[c as usize])); k += 1; }
+        let af: bool = kani::any(); let afc: u8 = kani::any(); kani::assume((afc as usize) < CODES.len());
+        if af { sc.failure.push(ValidationStatus::new(CODES[afc as usize])); }
+        let mut vr = ValidationResults::default().add_active_manifest(sc);
+        let df: bool = kani::any(); let dfc: u8 = kani::any(); kani::assume((dfc as usize) < CODES.len());
+        let has_delta: bool = kani::any();
+        if has_delta {
+            let mut d = StatusCodes::default();
+            if df { d.failure.push(ValidationStatus::new(CODES[dfc as usize])); }
+            vr = vr.add_ingredient_delta(IngredientDeltaValidationResult::new("u", d));
+        }
+        let st = vr.validation_state();
+        let mut fall: Vec<u8> = Vec::new();
+        if af { fall.push(afc); }
+        if has_delta && df { fall.push(dfc); }
+        assert!(st == spec_state(true, &sidx, &fall));
+        std::mem::forget(vr);
+    }
 }
